@@ -74,6 +74,15 @@ Fixpoint renorm_guarded (b : blk) : bool :=
 Definition renorm_checker (p : prog) : bool :=
   renorm_guarded (p_pre p) && renorm_guarded (p_body p) && renorm_guarded (p_post p).
 
+(** the output block: then-branch of the first top-level conditional on GOut *)
+Fixpoint out_block_of (b : blk) : option blk :=
+  match b with
+  | Done => None
+  | Seq _ r => out_block_of r
+  | Cond GOut t _ _ => Some t
+  | Cond _ _ _ r => out_block_of r
+  end.
+
 (** configurations that agree on everything but the output schedule *)
 Definition shared (c1 c2 : cfg) : Prop :=
   laststep c1 = laststep c2 /\ renorm c1 = renorm c2 /\ hdf c1 = hdf c2 /\ wake c1 = wake c2 /\ dynrf c1 = dynrf c2.
@@ -243,6 +252,20 @@ Section A.
     destruct Hs as (Hl & Hs'). rewrite Hl at 1.
     eapply chk_sound; eauto. unfold shared; tauto. intros X; discriminate.
   Qed.
+
+  (** C12.1 *)
+  Theorem out_block_observer ob cf (s : st) :
+    obs_blk ob = true -> Inv s -> dyn (exec_blk nosig cf ob s) = dyn s /\ Inv (exec_blk nosig cf ob s).
+  Proof.
+    intros Ho Hi. split.
+    - eapply dynx_dyn with (t := false). apply obs_blk_ok; auto.
+    - apply obs_blk_inv; auto.
+  Qed.
+
+  (** C12.2 *)
+  Lemma renorm_guard_step_only c1 c2 (s1 s2 : st) :
+    renorm c1 = renorm c2 -> k s1 = k s2 -> gval c1 s1 GRenorm = gval c2 s2 GRenorm.
+  Proof. intros H1 H2. cbn. rewrite H1, H2. reflexivity. Qed.
 
   (** C12.4 *)
   Lemma track_passive cf m sig (s : st) : dyn (exec sig cf (Track m) s) = dyn s.
